@@ -243,7 +243,9 @@ func region(off, n int) string {
 }
 
 // faults <payloadspec|sources> <masks comma hex> <nrand> <seed> [flip stride] [truncation stride]
-// (strides > 1 sample the interior offsets; the first and last 32 offsets are always enumerated)
+// [all]  (strides > 1 sample the interior offsets; the first and last 64 offsets are always enumerated.
+// Every damaged file is also loaded with source times later than the build time: all four with `all` or at the
+// edges, one in rotation otherwise.)
 func faultsMain(args []string) int {
 	root := cacheRoot()
 	var orig payload
@@ -300,13 +302,20 @@ func faultsMain(args []string) int {
 	}
 	fmt.Printf("info len=%d %s\n", n, rt)
 
-	try := func(d []byte) string {
+	// staleness under damage: source times later than the true build time; the only allowed outcome is a miss
+	laterNames := []string{"+1ns", "+1s", "+1h", "+1y"}
+	later := []time.Time{t0.Add(1), t0.Add(time.Second), t0.Add(time.Hour), t0.Add(365 * 24 * time.Hour)}
+	staleAll := len(args) > 6 && args[6] == "all"
+	ntry := 0
+	// try writes the damaged bytes, loads them with the build time as source time (fresh) and then with later
+	// source times (`edge`: all of them; otherwise all in the thorough tier, one in rotation in the quick tier).
+	try := func(cls, detail, reg string, d []byte, edge bool) {
 		if d == nil {
 			os.Remove(file)
 		} else if err := os.WriteFile(file, d, 0o640); err != nil {
 			die("%v", err)
 		}
-		return guarded(func() string {
+		fmt.Printf("%s %s %s %s\n", cls, detail, reg, guarded(func() string {
 			c := fresh()
 			if !bc.Load(c, "example.org/allnodes", t0) {
 				return "miss"
@@ -315,23 +324,45 @@ func faultsMain(args []string) int {
 				return "same"
 			}
 			return "DIFF"
-		})
+		}))
+		ntry++
+		for i, lt := range later {
+			if !(edge || staleAll || i == ntry%len(later)) {
+				continue
+			}
+			lt := lt
+			fmt.Printf("stale %s:%s@%s %s %s\n", cls, detail, laterNames[i], reg, guarded(func() string {
+				c := fresh()
+				if !bc.Load(c, "example.org/allnodes", lt) {
+					return "miss"
+				}
+				if c.fp() == want {
+					return "FRESH-same"
+				}
+				return "FRESH-DIFF"
+			}))
+		}
 	}
-	fmt.Printf("missing - - %s\n", try(nil))
+	for i, lt := range later { // sanity: the undamaged entry is stale for every later source time
+		if bc.Load(fresh(), "example.org/allnodes", lt) {
+			die("undamaged entry loads with source time %s", laterNames[i])
+		}
+	}
+	try("missing", "-", "-", nil, true)
 	for k := 0; k < n; k++ {
-		if k >= 32 && k < n-32 && (k+phase)%truncStride != 0 {
+		if k >= 64 && k < n-64 && (k+phase)%truncStride != 0 {
 			continue
 		}
-		fmt.Printf("trunc %d %s %s\n", k, region(k, n), try(data[:k]))
+		try("trunc", strconv.Itoa(k), region(k, n), data[:k], k < 64 || k >= n-64)
 	}
 	for off := 0; off < n; off++ {
-		if off >= 32 && off < n-32 && (off+phase)%flipStride != 0 {
+		if off >= 64 && off < n-64 && (off+phase)%flipStride != 0 {
 			continue
 		}
 		for _, m := range masks {
 			d := append([]byte{}, data...)
 			d[off] ^= m
-			fmt.Printf("flip %d:%02x %s %s\n", off, m, region(off, n), try(d))
+			try("flip", fmt.Sprintf("%d:%02x", off, m), region(off, n), d, off < 64 || off >= n-64)
 		}
 	}
 	for i := 0; i < nrand; i++ {
@@ -359,12 +390,12 @@ func faultsMain(args []string) int {
 		if bytes.Equal(d, data) {
 			continue
 		}
-		fmt.Printf("multi %s %s %s\n", strings.Join(desc, ","), r, try(d))
+		try("multi", strings.Join(desc, ","), r, d, false)
 	}
 	// splice: garbage appended, and the file replaced by another valid entry's bytes prefix + own suffix
-	fmt.Printf("append 16 body %s\n", try(append(append([]byte{}, data...), bytes.Repeat([]byte{0xAA}, 16)...)))
-	fmt.Printf("empty 0 header %s\n", try([]byte{}))
-	fmt.Printf("restore - - %s\n", try(data))
+	try("append", "16", "body", append(append([]byte{}, data...), bytes.Repeat([]byte{0xAA}, 16)...), true)
+	try("empty", "0", "header", []byte{}, true)
+	try("restore", "-", "-", data, true)
 	return 0
 }
 
